@@ -270,6 +270,82 @@ func runC10(r *Run) {
 	}
 	rb.Done()
 
+	// ---- between re-publication and a confirmed removal the callback does not touch the transaction object
+	hd := r.Rule("C10.handsoff", "in the agent callback, once the transaction has been registered again (the re-registration succeeded) and until a removal by this callback has found it, the callback itself reads and writes no field of the transaction object: everything it needs (ID, deadline, bytes) was copied before, because a response may complete and recycle the object at any moment and a later Start fill it with another request", 1)
+	if m.Callback != nil && m.Reg != nil && m.Del != nil {
+		fn := m.Callback
+		var regCalls []*ssa.Call
+		eachInstr(fn, func(b *ssa.BasicBlock, i int, in ssa.Instruction) {
+			if c, ok := in.(*ssa.Call); ok && callsFn(c, m.Reg) {
+				regCalls = append(regCalls, c)
+			}
+		})
+		isTx := func(v ssa.Value) bool {
+			v = canonPhi(v)
+			for _, rc := range regCalls {
+				for _, a := range rc.Call.Args {
+					if canonPhi(a) == v {
+						if pt, ok := a.Type().Underlying().(*types.Pointer); ok && types.Identical(pt.Elem(), m.TX) {
+							return true
+						}
+					}
+				}
+			}
+			return false
+		}
+		rep := map[ssa.Instruction]bool{}
+		nAcc := 0
+		q := &PathQuery{P: p, Fn: fn}
+		q.Step = func(in ssa.Instruction, deferred bool, st uint64, c *PathCtx) (uint64, bool) {
+			if cl, ok := in.(*ssa.Call); ok && callsFn(cl, m.Reg) {
+				return st | 1, false
+			}
+			fa, ok := in.(*ssa.FieldAddr)
+			if !ok || st&1 == 0 || !isTx(fa.X) {
+				return st, false
+			}
+			nAcc++
+			owned := false
+			for _, pc := range c.PathConds() {
+				cond, val := pc.Cond, pc.Val
+				for {
+					u, isU := cond.(*ssa.UnOp)
+					if !isU || u.Op != token.NOT {
+						break
+					}
+					cond, val = u.X, !val
+				}
+				// the re-registration failed: the object never left this callback
+				if bo, isB := cond.(*ssa.BinOp); isB && (bo.Op == token.EQL || bo.Op == token.NEQ) {
+					x := bo.X
+					if isNilConst(x) {
+						x = bo.Y
+					}
+					if cl, isC := canonPhi(deref(x)).(*ssa.Call); isC && callsFn(cl, m.Reg) && (isNilConst(bo.X) || isNilConst(bo.Y)) {
+						if (bo.Op == token.NEQ) == val {
+							owned = true
+						}
+					}
+				}
+				// a removal by this callback found the entry: it is this callback's again
+				if cl, isC := canonPhi(deref(cond)).(*ssa.Call); isC && callsFn(cl, m.Del) && val {
+					owned = true
+				}
+			}
+			if !owned && !rep[in] {
+				rep[in] = true
+				hd.ViolationPath(fn, instrPos(in), "transaction."+fieldOfAddr(fa).Name()+" accessed after re-publication", "the callback touches the transaction object while it is registered again: a response may have completed and recycled it, and a later Start may already have filled it with another request - the ID read here can be that of a live, unrelated transaction, which the rollback then removes and fails", c.Witness(fn, in))
+			}
+			return st, false
+		}
+		q.Run()
+		hd.Instance(fnName(fn)+"|re-registrations", true, map[string]int{"reg_calls": len(regCalls), "field_accesses_after": nAcc, "violations": len(rep)})
+		if len(regCalls) == 0 {
+			hd.Fail(fnName(fn), "no re-registration call found in the agent callback")
+		}
+	}
+	hd.Done()
+
 	// ---- the confirming removal identifies the transaction, not only its ID
 	ow := r.Rule("C10.owner", "the removal whose result confirms ownership (Start's and the callback's rollbacks) compares the table entry with the very transaction the caller is about to complete or report on: an entry registered later under the same ID is not taken for the caller's own", 1)
 	if m.Del != nil {
@@ -333,6 +409,9 @@ func runC10(r *Run) {
 	do.Done()
 	// a pooled transaction is released only by the party that owns it (shared with C12)
 	r.Borrow("C12", map[string]string{"C12.pool": "C10.pool"})
+	// deadlines and collection times are on one time line: otherwise no transaction ever times out and the handler of
+	// an unanswered request is never invoked (shared with C11)
+	r.Borrow("C11", map[string]string{"C11.clock": "C10.clock"})
 }
 
 func checkCallbackPaths(r *Run, rc *RuleCtx, m *clientModel, k *keyer) {
